@@ -789,6 +789,68 @@ func runOptions(c *harness.Ctx) harness.Result {
 	return res
 }
 
+// symbolizer tool access through the nm-backed symbol table (fast symbolization): many goroutines
+// look up addresses of different symbols in one object file at once
+func runToolsNM(c *harness.Ctx) harness.Result {
+	r := c.Rng
+	tools := filepath.Join(c.Tmp, "tools")
+	os.MkdirAll(tools, 0o755)
+	nsym := 20 + r.Intn(40)
+	var tb strings.Builder
+	for i := 0; i < nsym; i++ {
+		fmt.Fprintf(&tb, "fn%d T %016x %016x\n", i, 0x400000+i*0x40, 0x40)
+	}
+	table := filepath.Join(c.Tmp, "table.txt")
+	os.WriteFile(table, []byte(tb.String()), 0o644)
+	os.WriteFile(filepath.Join(tools, "nm"), []byte("#!/bin/sh\ncat "+table+"\n"), 0o755)
+	path := filepath.Join(c.Tmp, "img")
+	if err := writeTinyELF(path); err != nil {
+		return harness.Result{Verdict: harness.Inconclusive, Detail: err.Error()}
+	}
+	bu := &binutils.Binutils{}
+	bu.SetTools("nm:" + tools + ",llvm-symbolizer:/nonexistent,addr2line:/nonexistent,objdump:/nonexistent")
+	bu.SetFastSymbolization(true)
+	f, err := bu.Open(path, 0x400000, 0x403000, 0, "")
+	if err != nil {
+		return harness.Violation("Open: %v", err)
+	}
+	defer f.Close()
+	res := harness.Result{NonTrivial: true, Sig: fmt.Sprint("tools-nm", c.Index), Sample: map[string]any{"symbols": nsym}}
+	var wg sync.WaitGroup
+	var bad atomic.Value
+	var st stamps
+	for g := 0; g < 8; g++ {
+		wg.Add(1)
+		seed := r.Int63()
+		go func(g int, seed int64) {
+			defer wg.Done()
+			rr := rand.New(rand.NewSource(seed))
+			for k := 0; k < 300; k++ {
+				i := rr.Intn(nsym)
+				addr := uint64(0x400000 + i*0x40 + rr.Intn(0x40))
+				lookup := func() {
+					fr, err := f.SourceLine(addr)
+					want := fmt.Sprintf("fn%d", i)
+					if err != nil || len(fr) != 1 || fr[0].Func != want {
+						bad.Store(fmt.Sprintf("concurrent SourceLine(%#x) through the nm table returned %v (err=%v); the address lies in %s", addr, fr, err, want))
+					}
+				}
+				if k%50 == 0 {
+					st.do(lookup)
+				} else {
+					lookup()
+				}
+			}
+		}(g, seed)
+	}
+	wg.Wait()
+	c.Stat("nm_lookups", 8*300)
+	if v := bad.Load(); v != nil {
+		res.Verdict, res.Detail = harness.Violated, v.(string)
+	}
+	return res
+}
+
 func writeTinyELF(path string) error {
 	// ELF64 header + one PT_LOAD (R+X) at 0x400000, little endian
 	h := make([]byte, 64+56)
@@ -848,6 +910,7 @@ func init() {
 			{Name: "setters", Quick: 8, Thor: 100, Run: runSetters},
 			{Name: "options", Quick: 16, Thor: 400, Run: runOptions},
 			{Name: "tls", Quick: 16, Thor: 400, Run: c16.RunTLSFree},
+			{Name: "tools-nm", Quick: 12, Thor: 300, Run: runToolsNM},
 		},
 		CaseTimeout:   2 * time.Minute,
 		HangTries:     3,
